@@ -357,6 +357,24 @@ def rule_per_sec(ctx, crate, rule="R-PER-SEC-SOURCE"):
             ctx.check(ok, rule, "in-progress-value#%d" % k, b.name, dloc(b, d),
                       "per_sec of an in-progress bar is the estimator's rate, unmodified",
                       "per_sec of an in-progress bar is not the estimator's rate", cfg)
+        elif holds and any(b.edge_dominates(e, d["bb"]) for e in holds):
+            # "finite and non-negative at every instant strictly after the bar's creation or last reset", also when finished: the
+            # average is taken over the time since `started` up to *now* (positive at every such instant), not over a span between two
+            # recorded instants, which is zero whenever nothing was recorded in between (seed C09m: `est.prev_time - started`)
+            sl = def_slice(b, d)
+            divs = [(i, st) for i, j, st in b.assigns() if st["rv"]["k"] == "bin" and st["rv"]["op"] == "Div" and st["lhs"]["l"] in sl.locals | {d.get("lhs", {}).get("l")}]
+            if not divs:
+                continue
+            okd = True
+            for i, st in divs:
+                dsl = b.slice(st["rv"]["b"], at=i)
+                clock = dsl.has_call(r"std::time::Instant::elapsed", r"web_time::Instant::elapsed", r"state::ProgressState::elapsed", r"std::time::Instant::now", r"web_time::Instant::now")
+                est = [a for a in dsl.atoms if a[0] == "field" and a[1] == EST]
+                okd = okd and clock and not est and dsl.has_field("started", PS)
+            ctx.check(okd, rule, "finished-rate-over-elapsed#%d" % k, b.name, dloc(b, d),
+                      "per_sec of a finished bar is the position over the time elapsed since `started` (read from the clock)",
+                      "per_sec of a finished bar divides by a span that does not end *now* (it involves the estimator's recorded instants): with nothing recorded since "
+                      "creation / reset_elapsed() the span is zero and the rate is inf or NaN", cfg)
 
 
 def est_field_stores(b):
